@@ -175,11 +175,16 @@ def check(run):
             for l in T['locs']:
                 if l['inv'] is not None and l['rate'] is not None:
                     l['rate_first'] = True
+    # models in the 3.x syntax (parse_XML_buffer with newxta = false): labels spelled the old way, parameters in `;`-separated groups with several names each
+    nold = max(1, n // 12)
+    for k in range(nold):
+        M = docgen.old_params(docgen.oldify(docgen.gen(rng, ntempl=rng.choice([1, 2, 3, 4]), allow_anon=True, branchpoints=False, xta_common=True), rng), rng)
+        models.append(M)
     out = subprocess.run([drv], input='\n'.join(model_sx(M) for M in models) + '\n', stdout=subprocess.PIPE, universal_newlines=True).stdout.split('\n')
     j = vlib.Job()
     xmls = [docgen.render_xml(M) for M in models]
     for k, x in enumerate(xmls):
-        j.case('m%d' % k, fork=True).model('xml', x).dump('errors').dump('doc').dump('inv').end()
+        j.case('m%d' % k, fork=True, old=getattr(models[k], 'old', False)).model('xml', x).dump('errors').dump('doc').dump('inv').end()
     rr = vlib.run_jobs(j)
     mmism, stats = [], dict(templates=0, locations=0, edges=0, labels=0, processes=0, branchpoint_edges=0)
     samples = []
